@@ -74,6 +74,8 @@ def features_of(sc):
             f.add("dest-write-err")
         if d.get("open_err"):
             f.add("dest-open-err")
+        if d.get("batch"):
+            f.add("dest-batching")
     if sc["dlq"]["cfg"].get("outcomes") or any(st["do"] == "DlqReject" for st in sc["steps"]):
         f.add("dlq-reject")
     if sc["dlq"]["window"] or sc["dlq"]["threshold"]:
@@ -166,6 +168,128 @@ def random_scenario(rng, engine, idx, allow_faults=False, healthy=False, max_src
                   gomaxprocs=rng.choice([0, 0, 1, 2, 4]))
     sc["features"] = features_of(sc)
     return sc
+
+
+# ---------------------------------------------------------------------------------------------
+# The outcome x fault matrix: every combination of per-record outcomes of a 3-record flow, crossed
+# with ONE fault drawn from a vocabulary of faults at the engine's boundaries.  Error texts include
+# the identities the engine special-cases (io.EOF, context.Canceled): "this error is benign" rules
+# are where a record gets acknowledged that nobody has.
+OUTCOMES = ("C", "R", "X", "F", "E")   # confirm | reject->DLQ ok | reject->DLQ rejects | filtered | processor error->DLQ ok
+ERRS = ("verif: connection lost", "EOF", "canceled", "wrap:EOF", "wrap:canceled")
+
+
+def matrix_faults():
+    f = [("none", None)]
+    for k in (1, 2):
+        f.append(("ackfail%d" % k, k))
+    for e in ERRS:
+        f.append(("dlqclose", e))
+    for e in ERRS[:3]:
+        for k in (1, 2):
+            f.append(("dstclose%d" % k, e))
+            f.append(("srcread%d" % k, e))
+    f += [("force-at-dlq", None), ("stop-at-dlq", "confirm"), ("stop-at-dlq", "reject"), ("dlq-open-err", None)]
+    # the ack of record k cannot be taken: the position write fails, or the record has no position
+    for k in (1, 2):
+        for op in ("begin", "set", "commit"):
+            f.append(("store-%s%d" % (op, k), op))
+        f.append(("emptypos%d" % k, None))
+    return f
+
+
+def matrix_scenario(engine, outs, fault, shape, policy, fan, idx):
+    fname, farg = fault
+    tags = ["s1#%d" % (i + 1) for i in range(len(outs))]
+    d_out = {t: "verif: d1 rejects %s" % t for t, o in zip(tags, outs) if o in ("R", "X")}
+    dlq_out = {t: "verif: DLQ rejects %s" % t for t, o in zip(tags, outs) if o == "X"}
+    presults = {t: ("filter" if o == "F" else "error") for t, o in zip(tags, outs) if o in ("F", "E")}
+    procs = [proc("p1", "pipeline", 1, presults)] if presults else []
+    s1 = src("s1", len(outs), [len(outs)] if shape == "batch" else [1] * len(outs), gated=False)
+    dests = [dst("d1", gated=False, outcomes=d_out)]
+    if fan:
+        dests.append(dst("d2", gated=False))
+    dlq_cfg = {"gated": False, "outcomes": dlq_out}
+    steps = [{"do": "Settle"}]
+    if fname.startswith("ackfail"):
+        s1["fail_ack_sends"] = 1
+        s1["fail_ack_from"] = farg
+    elif fname == "dlqclose":
+        dlq_cfg.update(write_err_at=1, write_err=farg)
+    elif fname.startswith("dstclose"):
+        dests[0].update(write_err_at=int(fname[-1]), write_err=farg)
+    elif fname.startswith("srcread"):
+        s1.update(read_err_at=int(fname[-1]), read_err=farg, read_err_close=(idx % 2 == 0))
+    elif fname == "force-at-dlq":
+        dlq_cfg["gated"] = True
+        steps = [{"do": "Settle"}, {"do": "Stop", "force": True}]
+    elif fname == "stop-at-dlq":
+        dlq_cfg["gated"] = True
+        steps = [{"do": "Settle"}, {"do": "Stop"}, {"do": "DlqConfirm" if farg == "confirm" else "DlqReject", "n": 3},
+                 {"do": "Ungate"}]
+    elif fname == "dlq-open-err":
+        dlq_cfg["open_err"] = "verif: DLQ cannot open"
+    elif fname.startswith("emptypos"):
+        s1["empty_pos_at"] = int(fname[-1])
+    store_faults = []
+    if fname.startswith("store-"):
+        store_faults = [{"op": farg, "at": int(fname[-1]), "key": "connector:instance:s1" if farg == "set" else "",
+                         "after_emit": True}]
+    if fname.startswith(("store-", "emptypos", "ackfail")):
+        # the later records must already be in flight when the ack of an earlier one fails: the
+        # destinations take all writes first and answer one by one afterwards
+        steps = [{"do": "Settle"}]
+        for d in dests:
+            d["gated"] = True
+        for _ in outs:
+            for d in dests:
+                steps.append({"do": "Confirm", "dst": d["id"], "n": 1})
+        steps.append({"do": "Settle"})
+    w, t = policy
+    sc = scenario("%s-mx-%s-%s-%s%s-%d%d%s-%d" % (engine, "".join(outs), fname, str(farg or "").replace(":", "").replace(" ", "")[:8],
+                                                   "", w, t, ("b" if shape == "batch" else "s") + ("f" if fan else ""), idx),
+                  engine, [s1], dests, procs, w, t, steps, dlq_cfg=dlq_cfg)
+    if store_faults:
+        sc["store_faults"] = store_faults
+    feats = {"matrix", "fault-" + fname}
+    if fname not in ("force-at-dlq", "stop-at-dlq"):
+        feats.add("dlq-must-stop")   # nobody stops this pipeline: a dead-letter write that fails has to
+    sc["features"] = sorted(set(features_of(sc)) | feats)
+    return sc
+
+
+def matrix_scenarios(engine, rng, per_fault=None, full_none=False, focus=()):
+    """(outcome vector) x fault x batch shape x policy x fan-out.  per_fault=None: everything; otherwise a seeded
+    sample of per_fault combinations for every fault of the vocabulary (stratified, so that no fault is left
+    out; 4x as many for the faults whose name starts with one of `focus`, three quarters of those under the
+    tolerant policy and with at least one rejected record), plus - with full_none - ALL outcome vectors x batch
+    shapes without a fault under the tolerant policy."""
+    by_fault = {}
+    for outs in itertools.product(OUTCOMES, repeat=3):
+        nacks = sum(1 for o in outs if o in "RXE")
+        for fault in matrix_faults():
+            if fault[0] in ("dlqclose", "force-at-dlq", "stop-at-dlq", "dlq-open-err") and nacks == 0:
+                continue   # the fault point is never reached
+            for shape in ("batch", "single"):
+                for policy in ((4, 3), (2, 1), (0, 0)):
+                    for fan in (False, True):
+                        by_fault.setdefault(fault, []).append((outs, fault, shape, policy, fan))
+    combos = []
+    for fault, cs in by_fault.items():
+        if per_fault is None or per_fault >= len(cs):
+            combos += cs
+            continue
+        k = per_fault
+        pick = []
+        if any(fault[0].startswith(f) for f in focus):
+            k = per_fault * 4
+            sharp = [c for c in cs if c[3] == (4, 3) and any(o in "RXE" for o in c[0])]
+            pick = rng.sample(sharp, min(len(sharp), (3 * k) // 4))
+        pick += rng.sample(cs, min(len(cs), k - len(pick)))
+        if full_none and fault[0] == "none":
+            pick = [c for c in cs if c[3] == (4, 3) and not c[4]] + [c for c in pick if not (c[3] == (4, 3) and not c[4])]
+        combos += pick
+    return [matrix_scenario(engine, o, f, sh, po, fa, i) for i, (o, f, sh, po, fa) in enumerate(combos)]
 
 
 # ---------------------------------------------------------------------------------------------
